@@ -110,9 +110,23 @@ fn run_case(cfg: RtCfg, prog: &Arc<Program>, lim: &Lim, via: Via, base: &[(u32, 
     let (_, end, prof) = r.map_err(|e| format!("run returned an error: {e:?}"))?;
     let got = log.lock().unwrap().clone();
     // longest admitted prefix of the time-ordered sequence
-    let mut k = 0;
-    while k < base.len() && !lim.stops(k + 1, base[k].1) {
-        k += 1;
+    let prefix = |l: &Lim| -> usize {
+        let mut k = 0;
+        while k < base.len() && !l.stops(k + 1, base[k].1) {
+            k += 1;
+        }
+        k
+    };
+    let mut k = prefix(lim);
+    // Two bounds given one after the other through the builder: the documentation of
+    // Builder::limit speaks of overwriting, the code combines them (either stops the run). The
+    // statement does not settle it, so both readings are accepted for these chains.
+    if matches!(via, Via::ChainLeaves | Via::ChainLimitLeaves) {
+        if let Lim::Or(_, last) = lim {
+            if got.len() == prefix(last) && got.as_slice() == &base[..got.len()] {
+                k = got.len();
+            }
+        }
     }
     if got.as_slice() != &base[..k] {
         return Err(format!(
